@@ -319,6 +319,11 @@ class LocalShare:
             return None
         if not os.path.isdir(self.__path):
             return 0
+        if not os.path.exists(os.path.join(self.__path, "repo.json")):
+            # The shared location exists but no package has been installed
+            # yet. This is the case while the very first installation is
+            # still in progress.
+            return 0
 
         # Create a temporary attic directory. All garbage collected packages
         # are moved there to delete them without holding any locks.
